@@ -43,6 +43,9 @@ def check_case(out, rng, px, py, par_kw, sess, pending):
   facts = {'call': 'required_impact', 'n_pre': n, 'tq_sum': float(tq_sig + tq_pow), 'sig_level': sig, 'power_level': pw}
   d = tbrmmdiagnostics.TBRMMDiagnostics(py, par)
   d.x = px
+  if d.required_impact is None:
+    out.oracle_violation(dict(facts, symptom='missing'), case, f'required_impact is None although the control series is set (correlation {d.corr!r})')
+    return
   ri = float(d.required_impact)
   if not en.conditioned(px, py) or not math.isfinite(ri):
     out.count(None)
@@ -113,6 +116,11 @@ def run(out, tier, model_ok=True):
   for i in range(n_cases):
     fr = en.gen_frame(rng, n_pre=rng.choice([4, 5, 6, 8, 10, 14, 20, 21]))
     px, py, _, _ = en.series(fr, False)
+    if i % 25 == 7:
+      # a control series exactly orthogonal to the response (balanced patterns): correlation 0.0, the largest required impact
+      m4 = 4 * rng.randint(1, 5)
+      px = np.array([100.0 + 5 * (1 if j % 2 == 0 else -1) for j in range(m4)])
+      py = np.array([50.0 + 3 * (1 if (j // 2) % 2 == 0 else -1) for j in range(m4)])
     if i % 5 == 0:
       lo_levels = [0.3, 0.2, 0.45]     # sig + power <= 1: the antitone clause is a recorded finding there
       sig, pw = rng.choice(lo_levels), rng.choice(lo_levels)
